@@ -627,12 +627,32 @@ def allDelivered (S : Suite) : Sess → Sess → List (Nat × Bool × Pkt) → B
           allDelivered S (s.protectRtp S now p).2 (r.receiveRtp S now wire).2 rest
       else allDelivered S (s.protectRtp S now p).2 r rest
 
+/-- one stream's part of a schedule is "tolerated": the sender moves forward by fewer than 2^14 sequence
+numbers per packet and never loses two packets in a row, so every delivery is strictly within ±2^15 of
+the receiver's highest index (`prev` = sequence number of the previous scheduled packet, `lost` = whether
+it was lost). Without such a restriction the statement below would be false for ANY RFC 3711
+implementation (two large lost jumps desynchronise every receiver). -/
+def streamTolerated (k : Nat) : Option Nat → Bool → List (Nat × Bool × Pkt) → Bool
+  | _, _, [] => true
+  | prev, lost, (_, deliver, p) :: rest =>
+    if p.hdr.ssrc = k then
+      (match prev with
+        | none => true
+        | some q => decide (0 < (p.hdr.seq + 65536 - q) % 65536 ∧ (p.hdr.seq + 65536 - q) % 65536 < 16384)) &&
+      (deliver || !lost) && streamTolerated k (some p.hdr.seq) (!deliver) rest
+    else streamTolerated k prev lost rest
+
+/-- every stream of the schedule is tolerated -/
+def tolerated (sched : List (Nat × Bool × Pkt)) : Bool :=
+  (sched.map (·.2.2.hdr.ssrc)).all (fun k => streamTolerated k none false sched)
+
 /-- FULL STATEMENT of "round trip for any number of SSRCs" at the session API: linked sessions that
-agree on every SSRC's rollover state return every delivered packet of every in-order schedule
-(any SSRCs, any times, any losses). -/
+agree on every SSRC's rollover state return every delivered packet of every schedule whose streams are
+`tolerated` (any SSRCs, any times; per stream small forward steps and isolated losses — the property's
+"tolerated reordering and loss", so the statement is about eviction and the cap, not about window overflow). -/
 def ManySsrcRoundtrip (S : Suite) : Prop :=
   ∀ (s r : Sess) (sched : List (Nat × Bool × Pkt)), Linked S s r → (∀ k, rocOf s.tx k = rocOf r.rx k) →
-    (∀ x ∈ sched, x.2.2.WF) → allDelivered S s r sched = true
+    (∀ x ∈ sched, x.2.2.WF) → tolerated sched = true → allDelivered S s r sched = true
 
 namespace Witness
 def key16 : Bytes := List.replicate 16 1
@@ -690,7 +710,7 @@ theorem many_ssrc_roundtrip_witness : ¬ (∀ S, ManySsrcRoundtrip S) ∧
     rcases hx with hx | rfl | rfl
     · exact wf_of_mem warmup_shape hx
     · exact pkt_WF _ _ (by decide) (by decide)
-    · exact pkt_WF _ _ (by decide) (by decide))
+    · exact pkt_WF _ _ (by decide) (by decide)) (by decide)
   rw [h1] at this
   exact absurd this (by decide)
 
@@ -724,7 +744,7 @@ theorem rx_cap_witness :
   have hf : allDelivered toySuite sFull sFull [(0, true, pkt 5000 1)] = false := by decide
   refine ⟨hl, fun _ => rfl, hw, hf, fun h => ?_⟩
   have := h sFull sFull [(0, true, pkt 5000 1)] hl (fun _ => rfl) (fun x hx => by
-    simp only [List.mem_singleton] at hx; subst hx; exact hw)
+    simp only [List.mem_singleton] at hx; subst hx; exact hw) (by decide)
   rw [hf] at this
   exact absurd this (by decide)
 
